@@ -3,7 +3,7 @@
 From Coq Require Extraction.
 From Coq Require Import ExtrOcamlBasic.
 From Coq Require Import List NArith.
-From SosModel Require Import base.Sha256 model.Merkle base.Bytes model.Formats model.EventLog model.MergePatches model.Folder model.SyncProto model.Search model.SrvReq model.Paths model.Crash.
+From SosModel Require Import base.Sha256 model.Merkle base.Bytes model.Formats model.EventLog model.MergePatches model.Folder model.SyncProto model.Search model.SrvReq model.Paths model.Crash model.Auth.
 Extraction "../driver/model.ml"
   Sha256.sha256
   Merkle.root Merkle.head Merkle.proof_at Merkle.tree_compare Merkle.verify_leaves
@@ -21,4 +21,5 @@ Extraction "../driver/model.ml"
   Search.empty_index Search.new_index Search.ix_add Search.ix_remove Search.ix_update Search.count_folder
   SrvReq.srv_step
   Paths.sanitize_file_path
-  Crash.open_kind.
+  Crash.open_kind
+  Auth.authorize.
